@@ -31,7 +31,7 @@
 (***************************************************************************)
 EXTENDS Integers, Sequences, FiniteSets, TLC
 
-CONSTANTS Solvers,    \* subset of {"Moreau", "BackwardEuler", "Rattle", "DualStormerVerlet", "Newton", "ScipyIVP", "ScipyDAE"}
+CONSTANTS Solvers,    \* subset of {"Moreau", "BackwardEuler", "Rattle", "DualStormerVerlet", "Newton", "Riks", "ScipyIVP", "ScipyDAE"}
           PartSets,   \* "all": every subset of AllParts; "some": a few representative subsets
           MaxSteps,   \* the time grid has 1..MaxSteps steps (load steps for the static solver)
           MaxFaults   \* fault budget of a behaviour (model checking only)
@@ -60,6 +60,7 @@ Sites(s) ==
       [] s = "Rattle"            -> {"fsolve", "rattle.fp1", "rattle.fp2", "nonfinite"}
       [] s = "DualStormerVerlet" -> {}
       [] s = "Newton"            -> {"fsolve", "nonfinite"}
+      [] s = "Riks"              -> {"fsolve"}
       [] s = "ScipyIVP"          -> {"integrator"}
       [] s = "ScipyDAE"          -> {"integrator"}
 
@@ -69,9 +70,11 @@ Cap(s) ==
       [] s = "DualStormerVerlet" -> {"g", "gamma", "c", "N", "F", "S"}
       [] s \in {"ScipyIVP", "ScipyDAE"} -> {"g", "gamma", "c", "tau", "S"}
       [] s = "Newton" -> {"g", "c", "S", "N"}
+      [] s = "Riks" -> {"g", "c", "S"}       \* the arc-length solver has no contact forces in its equilibrium rows
 
 \* dynamic solvers store the initial state as row 0 before the first step; the static Newton solver computes
-\* its first row (load factor 0) like every other load step
+\* its first row (load factor 0) like every other load step; the arc-length solver stores the initial state and then
+\* one point per step (the number of steps is not known in advance: NSteps is its upper bound max_load_steps)
 Row0(s) == IF s = "Newton" THEN 0 ELSE 1
 
 \* the wrappers around adaptive SciPy integrators produce all rows in one call: no per-step events, the rows
